@@ -60,7 +60,7 @@ Section FLd.
     eapply sim_fstep; [simpl; rewrite rev_append_nil_twice, Ed, Eb; reflexivity|].
     assert (Hname : fdname d = f).
     { unfold ffind_def in Ed. apply find_some in Ed. destruct Ed as [_ Ed]. apply String.eqb_eq in Ed. exact Ed. }
-    destruct (Hdefs f d Ed Hnm) as [a [body [st [st' [ty [Hwc [Ha [Hab [Hac [Hctx [Hbnd [Hl [Hfind [Hf [Hws [Hnc [Hkd Hkb]]]]]]]]]]]]]]]]].
+    destruct (Hdefs f d Ed Hnm) as [a [body [st [st' [ty [Hwc [Ha [Hab [Hac [Hctx [Hbnd [Hl [Hfind [Hf [Hws [Hkd Hkb]]]]]]]]]]]]]]]].
     unfold cargs_res. apply sim_cstep.
     destruct (KS_arg p cp _ _ _ _ ce (MArgs (rev_append new' []) [] ce (FinCall (new_id f))) Hsh HKS) as [kv [Hreach Hkk]].
     eapply sim_rreach; [|exact Hreach].
@@ -84,12 +84,11 @@ Section FLd.
       rewrite app_nil_r in Hr.
       assert (Hj1 : (j1 < N)%nat) by lia.
       apply (IHN j1 Hj1 (fdbody d) j1 (Nat.le_refl j1) (compile_ctx (fdctx d)) (fdname d)
-                 (CXVar CCns (new_id a) ty) st body st' e' ce1 k Hwc Hf Hkd Hws Hnc Hl).
+                 (CXVar CCns (new_id a) ty) st body st' e' ce1 k Hwc Hf Hkd Hws Hl).
       + intros bb Hb. unfold compile_ctx in Hb. apply in_map_iff in Hb. destruct Hb as [b0 [E Hb0]]. subst bb.
         exists (fbvar b0). split; [reflexivity|]. apply Hctx. unfold fvars. apply in_map. exact Hb0.
       + exact Hbnd.
       + intros x Hx. simpl in Hx. destruct Hx as [Hx|[]]. subst x. exists a. split; [reflexivity | exact Ha].
-      + intros x Hx Hin. simpl in Hin. destruct Hin as [Hin|[]]. apply new_id_inj in Hin. subst x. exact (Hab Hx).
       + exact I.
       + exact Hr.
       + apply CK_covar with (kv := kv).
